@@ -3,6 +3,7 @@
 
 use super::seq_inv::{op_classes, render, run_seq, seq_strategy, SeqCase};
 use super::*;
+use crate::val::{MapF, Pred, RPred};
 use crate::ast::*;
 use crate::gen::{self, CaseCfg, GenCfg};
 use crate::model::{self, Conv, MResult, ModelErr};
@@ -26,6 +27,23 @@ pub struct DiffOpts {
   pub check_factories: bool,
   /// compare source subscription counts of PerSub sources (retry / resume bookkeeping)
   pub check_persub_counts: bool,
+  /// compare every observer's items as a multiset (its terminal still last): for histories
+  /// whose delivery order depends on the unspecified broadcast order of a subject
+  pub unordered_items: bool,
+}
+
+fn unordered(ts: &[Vec<Rk>]) -> Vec<Vec<String>> {
+  ts.iter()
+    .map(|t| {
+      let mut items: Vec<String> = t.iter().filter(|e| matches!(e, Rk::N(_))).map(|e| format!("{:?}", e)).collect();
+      items.sort();
+      // position of the first terminal relative to the items, and the terminals themselves
+      let cut = t.iter().position(|e| !matches!(e, Rk::N(_))).unwrap_or(t.len());
+      items.push(format!("terminal-after-{}-of-{}", cut, t.len()));
+      items.extend(t.iter().filter(|e| !matches!(e, Rk::N(_))).map(|e| format!("{:?}", e)));
+      items
+    })
+    .collect()
 }
 
 /// run the case on the crate and on the model; report the first disagreement
@@ -67,7 +85,7 @@ pub fn diff(c: &SeqCase, opts: DiffOpts) -> DiffOut {
       }
     };
     vectors += 1;
-    if m.traces == real_traces {
+    if m.traces == real_traces || (opts.unordered_items && unordered(&m.traces) == unordered(&real_traces)) {
       if i > 0 {
         rep.classes.push(format!("convention-vector:{}", i));
       }
@@ -402,6 +420,78 @@ pub(crate) fn c04_check(_ctx: &Ctx, c: &SeqCase) -> Report {
   rep
 }
 
+/// recovery operators over a *subject* as the source: the resubscription happens from inside
+/// the subject's own error delivery, and (plain Subject) the subject goes on after an error
+fn c04_hot_strategy(_ctx: &Ctx) -> BoxedStrategy<SeqCase> {
+  let kind = prop::sample::select(vec![HotKind::Subject, HotKind::Subject, HotKind::Behavior(9), HotKind::Replay]);
+  let seg = || prop::collection::vec(0i64..6, 0..=2);
+  let segs = prop::collection::vec((seg(), 1u32..4), 1..=3);
+  let idop = || prop::collection::vec(prop_oneof![Just(Op::Map(MapF::Add(1))), Just(Op::Filter(Pred::True)), Just(Op::Skip(1))], 0..=1);
+  (kind, segs, seg(), 0u8..3, 0u8..6, 0usize..4, idop(), idop(), 0u64..4)
+    .prop_map(|(kind, segs, tail, ending, rec, n, pre, post, hash_seed)| {
+      let sticky = kind != HotKind::Subject;
+      let mut script: Vec<Ev> = Vec::new();
+      for (i, (items, code)) in segs.into_iter().enumerate() {
+        if sticky && i >= 1 {
+          break;
+        }
+        script.extend(items.into_iter().map(Ev::N));
+        script.push(Ev::E(code));
+      }
+      if !sticky {
+        script.extend(tail.into_iter().map(Ev::N));
+        match ending {
+          0 => script.push(Ev::C),
+          1 => script.push(Ev::E(7)),
+          _ => {}
+        }
+      }
+      if sticky {
+        // generator soundness: the stored error must not be one the predicate accepts, and
+        // retry(0) retries without limit
+        for e in script.iter_mut() {
+          if let Ev::E(c) = e {
+            *c = (*c).max(n as u32);
+          }
+        }
+      }
+      let mut root = Node::Src(0, Src::Hot(0));
+      for op in pre {
+        root = Node::Un(op, Box::new(root));
+      }
+      root = match rec {
+        0 | 1 => Node::Un(Op::Retry(if sticky { n.max(1) } else { n }), Box::new(root)),
+        // (a stored error is replayed to every resubscription: no unbounded predicate there)
+        2 if !sticky => Node::Un(Op::RetryWhen(RPred::Always), Box::new(root)),
+        2 | 3 => Node::Un(Op::RetryWhen(RPred::CodeLt(n as u32)), Box::new(root)),
+        4 => Node::Resume(Box::new(root), vec![Node::Src(0, Src::Hot(0))]),
+        _ => Node::Resume(Box::new(root), vec![Node::Src(0, Src::Hot(0)), Node::Src(0, Src::Just(50))]),
+      };
+      for op in post {
+        root = Node::Un(op, Box::new(root));
+      }
+      root.renumber();
+      let mut actions = vec![Action::Subscribe(0)];
+      actions.extend(script.into_iter().map(|e| Action::Emit(0, e)));
+      SeqCase {
+        case: Case { root, hots: vec![kind], hot_illformed: false, conn: None, conn_take: None, recorders: vec![vec![]], actions },
+        hash_seed,
+      }
+    })
+    .boxed()
+}
+
+fn c04_hot_check(ctx: &Ctx, c: &SeqCase) -> Report {
+  let mut rep = c04_check(ctx, c);
+  rep.classes.push(format!("source:{:?}", c.case.hots[0]).split('(').next().unwrap().to_string());
+  let errors = c.case.actions.iter().filter(|a| matches!(a, Action::Emit(_, Ev::E(_)))).count();
+  rep.nontrivial = rep.sample.is_some() && errors >= 1;
+  if errors >= 2 {
+    rep.classes.push("subject-errs-more-than-once".into());
+  }
+  rep
+}
+
 /// metamorphic: o.materialize().dematerialize() == o
 fn c04_roundtrip_check(_ctx: &Ctx, c: &SeqCase) -> Report {
   let mut rep = Report::ok();
@@ -478,7 +568,7 @@ fn stateful(n: &Node) -> bool {
 }
 
 pub(crate) fn c14_check(_ctx: &Ctx, c: &SeqCase) -> Report {
-  let out = diff(c, DiffOpts { check_tap: true, check_factories: true, check_persub_counts: true });
+  let out = diff(c, DiffOpts { check_tap: true, check_factories: true, check_persub_counts: true, ..Default::default() });
   let mut rep = out.rep;
   if let Some(r) = &out.real {
     let subs = r.log.sub_marks.iter().filter(|m| m.is_some()).count();
@@ -604,11 +694,12 @@ pub fn properties() -> Vec<Property> {
     },
     Property {
       id: "C04",
-      rule: "cases = C02/C03 pipelines with error-heavy scripts (error at every position), retry(1..4), retry_when(never | code<k), on_error_resume_next with a table of resume pipelines, sources whose k-th subscription plays a different script; oracle = trace equality with the reference, error delivered once and last with the original payload type, subscription counts of per-subscription sources; metamorphic: o.materialize().dematerialize() == o; non-trivial = an error passed an operator after >= 1 item, or a resubscription happened",
+      rule: "cases = C02/C03 pipelines with error-heavy scripts (error at every position), retry(1..4), retry_when(never | code<k), on_error_resume_next with a table of resume pipelines, sources whose k-th subscription plays a different script; plus retry / retry_when / on_error_resume_next over a Subject (erring up to three times and going on), BehaviorSubject or ReplaySubject as the source, resubscribed from inside the subject's own error delivery; oracle = trace equality with the reference, error delivered once and last with the original payload type, subscription counts of per-subscription sources; metamorphic: o.materialize().dematerialize() == o; non-trivial = an error passed an operator after >= 1 item, or a resubscription happened",
       assumptions: vec!["retry(n): n or n+1 subscriptions accepted (convention vector)"],
       subs: vec![
         mk_sub("recovery", (1500, 30_000), |ctx| seq_strategy(c04_cfg(ctx)), c04_check),
         mk_sub("roundtrip", (800, 15_000), |ctx| seq_strategy(c04_cfg(ctx)), c04_roundtrip_check),
+        mk_sub("subject_source", (800, 15_000), c04_hot_strategy, c04_hot_check),
       ],
     },
     Property {
